@@ -101,7 +101,7 @@ func (c *stackClass_[V]) MakeFromArray(values []V) StackLike[V] {
 	var list = List[V](c.notation_).MakeFromArray(values)
 	return &stack_[V]{
 		class_:    c,
-		capacity_: c.defaultCapacity_,
+		capacity_: c.capacityFor(list),
 		values_:   list,
 	}
 }
@@ -110,9 +110,22 @@ func (c *stackClass_[V]) MakeFromSequence(values Sequential[V]) StackLike[V] {
 	var list = List[V](c.notation_).MakeFromSequence(values)
 	return &stack_[V]{
 		class_:    c,
-		capacity_: c.defaultCapacity_,
+		capacity_: c.capacityFor(list),
 		values_:   list,
 	}
+}
+
+// Private
+
+// This private class method returns the default capacity unless the specified
+// initial values need more room, in which case their number is the capacity.
+func (c *stackClass_[V]) capacityFor(values ListLike[V]) uint {
+	var capacity = c.defaultCapacity_
+	var size = uint(values.GetSize())
+	if size > capacity {
+		capacity = size
+	}
+	return capacity
 }
 
 // INSTANCE METHODS
